@@ -3,9 +3,12 @@
 EXTENDS PlencSystem, Json, TLC
 
 CONSTANT Emit
-MCEnv == [none |-> [k |-> "bool"]]
 I(n) == [neg |-> FALSE, mag |-> NatLimbs(n)]
 F(nm, i, opt, t) == [i |-> i, n |-> nm, gn |-> nm, enc |-> TRUE, opt |-> opt, tag |-> "", t |-> t]
+\* the named type of the catalogue (as the harness's type database describes it)
+MCEnv == [RefNode |-> [k |-> "struct", name |-> "RefNode",
+                       f |-> <<F("ID", 1, "", [k |-> "int", w |-> 32]), F("Name", 2, "", [k |-> "string"]),
+                               F("Parent", 3, "rf", [k |-> "ptr", e |-> [k |-> "ref", n |-> "RefNode"]])>>]]
 St(fs) == [k |-> "struct", name |-> "", f |-> fs]
 IntT == [k |-> "int", w |-> 64]
 StrT == [k |-> "string"]
@@ -89,6 +92,10 @@ ZT == [sec |-> ZeroSec, nsec |-> 0]
 TQz == <<ZT, NilP, ZT>>
 TQv == <<[sec |-> I(1000), nsec |-> 5000], [nil |-> FALSE, v |-> [sec |-> I(86400), nsec |-> 7000]], [sec |-> I(77), nsec |-> 9]>>
 SlM == [k |-> "slice", e |-> MkT]
+RefT == [k |-> "ref", n |-> "RefNode"]
+RefZ == <<I(0), <<>>, NilP>>
+RefRoot == <<I(1), <<114, 111, 111, 116>>, NilP>>
+RefChild == <<I(2), <<99>>, [nil |-> FALSE, v |-> RefRoot]>>
 MpM == [k |-> "map", key |-> MkT, val |-> StrT]
 MCCat17 == <<
   [T |-> TA, vals |-> <<TAz, TAv>>, cfg |-> "default"], [T |-> TA, vals |-> <<TAz, TAv>>, cfg |-> "mk"],
@@ -104,7 +111,10 @@ MCCat17 == <<
   [T |-> TQ, vals |-> <<TQz, TQv>>, cfg |-> "bq"],
   \* a registration for the basic type int32 on one instance: the named type without a registration of its own falls back to it, on that instance only
   [T |-> TA, vals |-> <<TAz, TAv>>, cfg |-> "mkkind"], [T |-> MkT, vals |-> <<I(0), Neg(1)>>, cfg |-> "mkkind"],
-  [T |-> SlM, vals |-> <<[nil |-> TRUE, e |-> <<>>], [nil |-> FALSE, e |-> <<I(1), I(128)>>]>>, cfg |-> "mkkind"]
+  [T |-> SlM, vals |-> <<[nil |-> TRUE, e |-> <<>>], [nil |-> FALSE, e |-> <<I(1), I(128)>>]>>, cfg |-> "mkkind"],
+  \* a codec registered for a struct type under a tag, used from inside that very type (a tagged self-reference) and from another struct
+  [T |-> RefT, vals |-> <<RefZ, RefChild>>, cfg |-> "rf"],
+  [T |-> St(<<F("Who", 1, "rf", [k |-> "ptr", e |-> RefT]), F("N", 2, "", IntT)>>), vals |-> << <<NilP, I(0)>>, <<[nil |-> FALSE, v |-> RefRoot], I(4)>> >>, cfg |-> "rf"]
 >>
 \* the instance configurations really differ on these items: an option or registration of one instance that leaked into
 \* another would change the bytes
@@ -117,7 +127,7 @@ ScopedDiffer == /\ Encode(CfgN("default"), Bake(TA, ""), TAv) # Encode(CfgN("mk"
                 /\ Encode(CfgN("default"), Bake(TA, ""), TAv) # Encode(CfgN("mkkind"), Bake(TA, ""), TAv)
 AllIdx == 1..Len(Cat)
 QuickIdx == {1, 4, 5, 6, 9, 13, 14}
-Quick17 == {1, 2, 5, 7, 9, 13, 16}
+Quick17 == {1, 2, 5, 7, 9, 16, 19}
 View == sysvars
 ASSUME PrintT(<<"CATALOGUE", ToJson(Cat)>>)
 \* a history is emitted when it cannot be extended (MaxSteps reached); prefixes are judged as part of it
